@@ -498,3 +498,59 @@ def _raw_value_placeholders(fn_node: ast.AST, f: Optional[Func] = None) -> List[
                             continue
                         out.append((nm, n.lineno, short(n.exc, 70)))
     return out
+
+
+# ---- interpreter-bound closures do not outlive the interpreter -----------------------------------------
+def rule_no_vm_bound_values_on_objects(ctx, rep, rid: str) -> None:
+    """The method closures the interpreter hands out for arrays, strings, numbers ... capture the interpreter that made
+    them (`vm = self`) and run callbacks on it.  An interpreter lives for one eval; script objects live as long as the
+    context's globals.  Storing such a closure on a script object (a per-object method cache, say) lets a later eval
+    run callbacks on a finished interpreter: its clock, its stacks, its handler records."""
+    rep.rule(rid, "a value bound to one interpreter (the result of a method-table factory of the interpreter class) is only returned, pushed on that interpreter's own stack or kept in that interpreter's own attributes, never stored in an attribute or dictionary of a script object", floor=1)
+    vmcls = ctx.facts.vm_dispatcher()[0].cls
+    producers = {m.name for m in vmcls.all_methods if m.name.startswith("_make_") and m.name.endswith("_method")}
+    if len(producers) < 3:
+        raise AnalysisError(f"method-table factories of the interpreter not found ({sorted(producers)})")
+
+    def is_bound_value(e: ast.AST) -> bool:
+        return any(isinstance(x, ast.Call) and isinstance(x.func, ast.Attribute) and x.func.attr in producers for x in ast.walk(e))
+
+    n = 0
+    for f in ctx.tree.funcs:
+        if isinstance(f.node, ast.Lambda) or f.module.name not in ("vm", "values", "context"):
+            continue
+        bound_locals = {t.id for a in f.own_nodes() if isinstance(a, ast.Assign) and is_bound_value(a.value) for t in a.targets if isinstance(t, ast.Name)}
+        for a in f.own_nodes():
+            if not isinstance(a, ast.Assign):
+                continue
+            if not (is_bound_value(a.value) or (isinstance(a.value, ast.Name) and a.value.id in bound_locals)):
+                continue
+            for t in a.targets:
+                tt = t
+                while isinstance(tt, ast.Tuple):
+                    tt = tt.elts[0]
+                if isinstance(tt, ast.Name):
+                    continue  # a local
+                n += 1
+                key = f"{f.qual}:{short(t, 30)} = {short(a.value, 30)}"
+                root = tt
+                while isinstance(root, (ast.Attribute, ast.Subscript)):
+                    root = root.value
+                holder = None
+                if isinstance(root, ast.Name):
+                    if root.id == "self" and f.cls is vmcls:
+                        rep.ok(rid, key, {"kept_on": "the interpreter itself"})
+                        continue
+                    # a local alias of some object's attribute?
+                    defs = [d.value for d in f.own_nodes() if isinstance(d, ast.Assign) and any(isinstance(x, ast.Name) and x.id == root.id for x in d.targets)]
+                    # chained assignment `bound = obj._cache = {}` binds the local to the attribute as well
+                    chained = [d for d in f.own_nodes() if isinstance(d, ast.Assign) and len(d.targets) > 1 and any(isinstance(x, ast.Name) and x.id == root.id for x in d.targets) and any(isinstance(x, ast.Attribute) for x in d.targets)]
+                    if any(isinstance(d, ast.Attribute) and norm(d.value) != "self" for d in defs) or chained:
+                        holder = next((norm(d) for d in defs if isinstance(d, ast.Attribute)), None) or norm(next(x for x in chained[0].targets if isinstance(x, ast.Attribute)))
+                    elif isinstance(tt, ast.Attribute) or root.id in f.params():
+                        holder = root.id
+                if holder is None:
+                    rep.ok(rid, key, {"note": "a local container"})
+                else:
+                    rep.bad(rid, key, f"{f.qual} stores an interpreter-bound method ({short(a.value, 40)}) in {holder}: the object outlives the eval, so a later eval calling the cached method runs its callbacks on the finished interpreter (its start time, call stack and handler records)", f"{f.module.rel}:{a.lineno}")
+    rep.ok(rid, "interpreter-bound-values", {"stores_examined": n, "factories": sorted(producers)})
